@@ -65,6 +65,7 @@ type dStep struct {
 	Final    dProbe   `json:"final"`
 	Attempts int      `json:"attempts"`
 	Late     *dProbe  `json:"late,omitempty"` // corroboration probe taken long after the bound
+	Typed    *dProbe  `json:"typed,omitempty"`
 }
 
 type dLog struct {
@@ -83,6 +84,7 @@ type dOut struct {
 	SSEEvents int      `json:"sse_events,omitempty"`
 	SSEOpen   bool     `json:"sse_open,omitempty"`
 	Gor       int      `json:"goroutines,omitempty"`
+	PortLost  bool     `json:"port_lost,omitempty"` // the chosen port was taken by another process before the server bound it
 }
 
 type dLineRec struct {
@@ -128,6 +130,12 @@ func devTagIndex(line string) int {
 		}
 	}
 	return best
+}
+
+func (l *dLineRec) peek() []dLog {
+	l.mu.Lock()
+	defer l.mu.Unlock()
+	return append([]dLog(nil), l.lines...)
 }
 
 func (l *dLineRec) take() []dLog {
@@ -183,12 +191,36 @@ func TestVerifDevWorker(t *testing.T) {
 			continue
 		}
 		emit(map[string]interface{}{"ev": "begin", "id": job.ID})
-		emit(runDevJob(&job, tmp, rec))
+		var res *dOut
+		for attempt := 0; attempt < 4; attempt++ {
+			res = runDevJob(&job, tmp, rec)
+			if !res.PortLost {
+				break
+			}
+		}
+		emit(res)
 	}
 	emit(map[string]interface{}{"ev": "done", "goroutines": runtime.NumGoroutine()})
 }
 
+// devFreePort picks a listening port below the ephemeral range (the probers open thousands of
+// short connections whose source ports come from that range; a server bound there can collide
+// with one of them) and in a slice of the range that depends on the process, so that parallel
+// workers do not race for the same port between this check and the server's own bind.
+var devPortSeq int
+
 func devFreePort() int {
+	base := 20000 + (os.Getpid()%110)*100
+	for i := 0; i < 100; i++ {
+		devPortSeq++
+		p := base + devPortSeq%100
+		l, err := net.Listen("tcp", fmt.Sprintf("127.0.0.1:%d", p))
+		if err != nil {
+			continue
+		}
+		l.Close()
+		return p
+	}
 	l, err := net.Listen("tcp", "127.0.0.1:0")
 	if err != nil {
 		return 0
@@ -278,6 +310,15 @@ func runDevJob(job *dJob, tmp string, rec *dLineRec) *dOut {
 	for a := 0; a < 300 && out.First.Err != ""; a++ { // listener started on a goroutine: bounded retry
 		time.Sleep(10 * time.Millisecond)
 		out.First = probe(fresh, false)
+		if a%20 == 19 {
+			for _, l := range rec.peek() {
+				if strings.Contains(l.Line, "address already in use") {
+					out.PortLost = true
+					out.StartErr = "port taken by another process"
+					return out
+				}
+			}
+		}
 	}
 
 	// SSE client: a browser tab with the live-reload stream open (keeps a request active on
@@ -506,6 +547,21 @@ func runDevJob(job *dJob, tmp string, rec *dLineRec) *dOut {
 					st.Late = &p
 				}
 			}
+		}
+		// the input contract of the version that is serving: POST /typed with its conforming body
+		if st.Final.S == 200 && strings.HasPrefix(st.Final.B, `{"v":`) {
+			k := strings.TrimSuffix(strings.TrimPrefix(st.Final.B, `{"v":`), "}")
+			tp := dProbe{T0: now()}
+			resp, err := fresh.Post(fmt.Sprintf("http://127.0.0.1:%d/typed", port), "application/json", strings.NewReader(`{"f`+k+`":"x"}`))
+			if err != nil {
+				tp.Err = err.Error()
+			} else {
+				b, _ := io.ReadAll(io.LimitReader(resp.Body, 4096))
+				resp.Body.Close()
+				tp.S, tp.B = resp.StatusCode, strings.TrimSpace(string(b))
+			}
+			tp.T1 = now()
+			st.Typed = &tp
 		}
 		out.Steps = append(out.Steps, st)
 	}
